@@ -162,7 +162,7 @@ IMATH_HOSTDEVICE constexpr inline int
 divp (int x, int y) IMATH_NOEXCEPT
 {
     return (x >= 0) ? ((y >= 0) ? (x / y) : -(x / -y))
-                    : ((y >= 0) ? -((y - 1 - x) / y) : ((-y - 1 - x) / -y));
+                    : ((y >= 0) ? -((-x - 1) / y) - 1 : ((-x - 1) / -y) + 1);
 }
 
 IMATH_HOSTDEVICE constexpr inline int
